@@ -271,13 +271,15 @@ class EngineCheck(PropertyCheck):
             rules = E.gen_program(rng, nk, cyclic=rng.chance(1, 4))
             ops = E.gen_history(rng, rules, 3 + rng.below(8 if not ctx.thorough else 14), cancel=rng.chance(1, 3),
                                 allow_restart=False)
-            single.append(E.Case(rules, ops))
+            # every third history runs on the real SQLite database (both variants), the others on the observing one
+            sq = (i % 3 == 2)
+            single.append(E.Case(rules, ops, sqlite=sq))
             ops2 = []
             for o in ops:
                 if o["op"] == "B":
                     ops2.append({"op": "E"})
                 ops2.append(copy.deepcopy(o))
-            split.append(E.Case(rules, ops2))
+            split.append(E.Case(rules, ops2, sqlite=sq))
         exe = ctx.exe[("vengine", "plain")]
         h1, pr1 = E.run_harness(exe, single)
         h2, pr2 = E.run_harness(exe, split)
@@ -317,7 +319,8 @@ class EngineCheck(PropertyCheck):
                             "kind": "restart-changes-executions", "input": {"ops": c1.harness_lines(), "ops_split": c2.harness_lines()}})
         res.evaluations += compared
         res.distinct_nontrivial += same_exec
-        res.distribution["restart_split"] = {"histories": n, "builds_compared": compared, "builds_with_executions_compared": same_exec}
+        res.distribution["restart_split"] = {"histories": n, "on_sqlite": sum(1 for c in single if c.sqlite), "builds_compared": compared,
+                                             "builds_with_executions_compared": same_exec}
 
     def correspond(self, ctx, res):
         corp = self.corpus_cases()
